@@ -217,6 +217,51 @@ def work_round(job):
     return dict(st), viols[:20], sorted(classes), {'family': 'roundprec', 'models': [n for n, _ in mods], 'ys': ys}
 
 
+def work_tol(job):
+    """sol:chk:feastol / feastolrel / inttol: a violation is reported iff it exceeds the absolute AND the relative tolerance
+    (integrality: the absolute inttol only).  Violation magnitudes are chosen a factor 10 away from the tolerances."""
+    global _srv
+    if _srv is None: _srv = flatlib.Server(flatlib.build())
+    st = collections.Counter(); viols = []; classes = set()
+    V = [(0.0, 100.0, False, 0.5), (-20.0, 20.0, True, 1.0), (0.0, 1.0, True, 1.0)]
+    # row y + x <= 90 and bound y <= 100; integer x
+    m = Model(V, acons=[(None, {0: 1.0, 1: 1.0}, -INF, 90.0)])
+    nl = m.nl()
+    for ft in (None, 1e-3, 1e-8):
+        for fr in (None, 1e-3, 1e-9):
+            for it in (None, 1e-2, 1e-9):
+                opts = ' '.join(x for x in ['sol:chk:feastol=%g' % ft if ft is not None else '', 'sol:chk:feastolrel=%g' % fr if fr is not None else '',
+                                            'sol:chk:inttol=%g' % it if it is not None else ''] if x)
+                r = _srv.request('convert', nl=nl, opts=opts, acc=ACC_NATIVE)
+                st['conversions'] += 1
+                if r.get('status') != 'ok': continue
+                FT = 1e-6 if ft is None else ft; FR = 1e-6 if fr is None else fr; IT = 1e-5 if it is None else it
+                cases = []
+                for mag in (FT / 10, FT * 10, FR * 50 / 10, FR * 50 * 10, max(FT, FR * 50) * 10, min(FT, FR * 50) / 10):
+                    cases.append(('row', [70.0 + mag, 20.0, 0.0], mag, 90.0))          # row violated by mag, reference value 90
+                    cases.append(('ub', [100.0 + mag, -20.0, 0.0], mag, 100.0))        # bound violated by mag, row satisfied (80 <= 90)
+                for mag in (IT / 10, IT * 10):
+                    cases.append(('int', [10.0, 3.0 + mag, 0.0], mag, None))
+                for kind, p, mag, ref in cases:
+                    if kind == 'int':
+                        exp = mag > IT
+                    else:
+                        exp = mag > FT and mag / ref > FR
+                        # stay a factor >= 5 away from both thresholds
+                        if not (mag > 5 * FT or mag < FT / 5) or not (mag / ref > 5 * FR or mag / ref < FR / 5): continue
+                    v = _srv.request('check', x=','.join(repr(float(t)) for t in p), objs='', infeas='0')
+                    st['checks'] += 1
+                    got = not v.get('ok')
+                    classes.add('native|tol|%s|ft=%s fr=%s it=%s|exp=%d' % (kind, ft, fr, it, exp))
+                    if got != exp:
+                        viols.append(('C07 %s of a %s violation with sol:chk:feastol=%s feastolrel=%s inttol=%s' %
+                                      ('missed-violation' if exp else 'spurious-violation', kind, ft, fr, it),
+                                      {'model': m.describe(), 'x': p, 'violation_magnitude': mag, 'reference_value': ref, 'opts': opts, 'answer': v}, None))
+                    elif exp: st['violations_expected_and_reported'] += 1
+                    else: st['clean_expected_and_clean'] += 1
+    return dict(st), viols[:20], sorted(classes), {'family': 'tolerances', 'model': m.describe()}
+
+
 def models(tier):
     fams = ['linmix', 'canon', 'uenc', 'sharing', 'fracint', 'bounds', 'dvars', 'compl'] if tier == 'quick' else None
     out = []
@@ -247,10 +292,11 @@ def main(tier, seed):
     jobs = [(fam, name, m, tier, i) for i, (fam, name, m) in enumerate(models(tier))]
     tot = collections.Counter(); classes = set()
     with Pool(vcheck.NCPU) as pool:
-        pending = pool.apply_async(work_round, (None,))
-        st, viols, cl, sample = pending.get()
-        tot.update(st); classes.update(cl); chk.sample(sample)
-        for sig, det, rp in viols: chk.violation(sig, det, rp)
+        pending = [pool.apply_async(work_round, (None,)), pool.apply_async(work_tol, (None,))]
+        for pd in pending:
+            st, viols, cl, sample = pd.get()
+            tot.update(st); classes.update(cl); chk.sample(sample)
+            for sig, det, rp in viols: chk.violation(sig, det, rp)
         for st, viols, cl, sample in pool.imap_unordered(work, jobs, chunksize=2):
             tot.update(st); classes.update(cl)
             if sample: chk.sample(sample)
@@ -263,7 +309,7 @@ def main(tier, seed):
     chk.set('rule', 'exact-fragment models (all-native delivery, auxiliary values = true expression values) x '
             'check modes %s x sol:chk:fail x candidate points (every grid point; +0.5 / +1e-8 above upper bounds; fractional and '
             '1e-7-fractional integers) x {true objective value, objective off by 0.75}; expected verdict from the reference NL '
-            'evaluator under the documented tolerance rule. A class = (config, mode, point kind, warn|fail, expected verdict).'
+            'evaluator under the documented tolerance rule; a tolerance family: sol:chk:feastol x feastolrel x inttol (default / looser / tighter each) x row, bound and integrality violations a factor 10 away from the tolerances. A class = (config, mode, point kind, warn|fail, expected verdict).'
             % [x[0] for x in MODES])
     chk.assumptions += ['a violation needs viol > feastol (1e-6) and viol/|ref| > feastolrel; grid step 0.5 and the perturbation sizes '
                         '(1e-8, 1e-7 below / 0.3, 0.5 above tolerance) keep every case away from the ambiguous band',
